@@ -327,7 +327,7 @@ def units(tier, seed):
         cfgs = [(5, 1, ()), (4, 2, (2,))]
         powD = 4
     else:
-        cfgs = [(10, 1, ()), (8, 2, (2,)), (6, 3, (2, 2)), (9, 2, ())]
+        cfgs = [(10, 1, ()), (8, 2, (2,)), (6, 3, (2, 2)), (9, 2, ()), (14, 1, ()), (5, 4, (2,)), (4, 2, (2, 3)), (12, 1, (2,))]
         powD = 8
     fnames = list(UNARY) + list(SPECIAL)
     for fname in fnames:
